@@ -17,12 +17,12 @@
    EVERY tree, with no acceptance hypothesis left.  (`_partial` only for the reason stated in Props/C08t.v: the lift from
    the identity of right-hand sides on the invariant set M to the returned curves is cited.) *)
 From EoNV Require Import Prelude Graph Vec VecP Rhs2D Rhs2DP Rhs2 Rhs2GenP Master C08tG C08tS C08tT C08tR C08tA C08tO C08tF C08tC
-  C08tTreeA C08tTreeB C08tTreeC.
+  C08tTreeA C08tTreeB C08tTreeC C08tTreeD C08tTreeE.
 
 (* ---------------- the definition: boolean test = inductive pendant-vertex construction ---------------- *)
 Theorem C08tree_pendant_iff : forall (adj : nat -> nat -> bool) ord,
   (pendant adj true ord <-> tree_peelb adj ord = true) /\ (pendant adj false ord <-> forest_peelb adj ord = true).
-Proof. intros adj ord. split; [exact (pendant_tree adj ord)|exact (pendant_forest adj ord)]. Qed.
+Proof. exact pendant_iff. Qed.
 Theorem C08tree_tree_is_forest : forall G nodelist ord, tree_orderb G nodelist ord = true -> forest_orderb G nodelist ord = true.
 Proof. exact tree_forest_order. Qed.
 
@@ -49,7 +49,7 @@ Theorem C08tree_side_conditions : forall G, wf_graphb G = true ->
 Proof. exact wf_pb_wfb. Qed.
 Theorem C08tree_accepted_simple_graph : forall G ord, wf_graphb G = true -> tree_orderb G (gnodes G) ord = true ->
   tree_okb G (gnodes G) (pos_in (gnodes G)) = true.
-Proof. intros G ord W T. exact (forest_accepted G ord W (tree_forest_order G _ ord T)). Qed.
+Proof. exact tree_accepted_simple_graph. Qed.
 
 (* ---------------- the clause, for every tree ---------------- *)
 Theorem C08tree_exact_on_M : forall G nodelist idx ord tr rc,
@@ -75,6 +75,35 @@ Theorem C08tree_pure_ic_partial : forall G ord tr rc, wf_graphb G = true -> tree
   (forall p t, nonneg nodelist p -> inMs nodelist cuts p ->
      veq (g_dSIR_pair_based (marginals G nodelist p) t G nodelist idx tr rc) (marginals G nodelist (master p))).
 Proof. exact tree_pure_ic_simple_graph. Qed.
+
+(* ---------------- against the usual definition: connected with |E| = |V| - 1 ---------------- *)
+(* abstract adjacency: a duplicate-free vertex list V that is connected (`walk`: walks inside V) and whose degree sum is
+   2 (|V| - 1) has a tree peeling order listing exactly V; and conversely *)
+Theorem C08tree_order_of_connected_degsum : forall (adj : nat -> nat -> bool), (forall a b, adj a b = adj b a) ->
+  forall n V, length V = n -> NoDup V -> (forall x, In x V -> adj x x = false) ->
+  connected adj V -> degsum adj V = (2 * (n - 1))%nat -> exists ord, same_elts ord V /\ tree_peelb adj ord = true.
+Proof. exact order_of_connected_degsum. Qed.
+Theorem C08tree_connected_degsum_of_order : forall (adj : nat -> nat -> bool), (forall a b, adj a b = adj b a) ->
+  forall ord, (forall x, In x ord -> adj x x = false) -> tree_peelb adj ord = true ->
+  connected adj ord /\ degsum adj ord = (2 * (length ord - 1))%nat.
+Proof. exact connected_degsum_of_order. Qed.
+(* on the positions of a graph: the usual definition <=> a tree order exists *)
+Theorem C08tree_usual_iff : forall G nodelist, noloopb G nodelist = true ->
+  ((pos_connected G nodelist /\ pos_degsum G nodelist = (2 * (nN nodelist - 1))%nat) <->
+   exists ord, tree_orderb G nodelist ord = true).
+Proof. exact usual_iff. Qed.
+(* executable, no certificate: no loop, degree sum 2 (n - 1), every position found from position 0 *)
+Theorem C08tree_usual_treeb_order : forall G nodelist, usual_treeb G nodelist = true -> exists ord, tree_orderb G nodelist ord = true.
+Proof. exact usual_treeb_order. Qed.
+Theorem C08tree_usual_tree_accepted : forall G, wf_graphb G = true -> usual_treeb G (gnodes G) = true ->
+  tree_okb G (gnodes G) (pos_in (gnodes G)) = true.
+Proof. exact usual_tree_accepted. Qed.
+Theorem C08tree_usual_tree_exact_on_M : forall G tr rc, wf_graphb G = true -> usual_treeb G (gnodes G) = true ->
+  let nodelist := gnodes G in let idx := pos_in (gnodes G) in
+  forall p t, nonneg nodelist p -> inMs nodelist (branch_cuts G nodelist) p ->
+  veq (g_dSIR_pair_based (marginals G nodelist p) t G nodelist idx tr rc)
+      (marginals G nodelist (master_rhs G nodelist idx tr rc p)).
+Proof. exact usual_tree_exact. Qed.
 
 (* ---------------- instances: paths, stars, caterpillars, a relabelled tree; a cycle has no order ---------------- *)
 Definition ex_path6 : graph := graph_of [(0, [1]); (1, [0; 2]); (2, [1; 3]); (3, [2; 4]); (4, [3; 5]); (5, [4])]%N.
@@ -104,6 +133,16 @@ Example C08tree_nonvacuous_agree :
   tree_okb ex_tree6' (gnodes ex_tree6') (pos_in (gnodes ex_tree6')) = true.
 Proof. vm_compute. repeat split; reflexivity. Qed.
 
+(* usual_treeb: true on the trees; false on a triangle, on two disjoint edges, on a triangle plus an isolated vertex
+   (whose degree sum IS 2 (n - 1)) *)
+Example C08tree_nonvacuous_usual :
+  usual_treeb ex_path6 (gnodes ex_path6) = true /\ usual_treeb ex_star5 (gnodes ex_star5) = true /\
+  usual_treeb ex_cater8 (gnodes ex_cater8) = true /\ usual_treeb ex_tree6' (gnodes ex_tree6') = true /\
+  usual_treeb ex_tri' (gnodes ex_tri') = false /\
+  usual_treeb (graph_of [(0, [1]); (1, [0]); (2, [3]); (3, [2])]%N) [0; 1; 2; 3]%N = false /\
+  usual_treeb (graph_of [(0, [1; 2]); (1, [0; 2]); (2, [0; 1]); (3, [])]%N) [0; 1; 2; 3]%N = false.
+Proof. vm_compute. repeat split; reflexivity. Qed.
+
 Print Assumptions C08tree_pendant_iff.
 Print Assumptions C08tree_tree_is_forest.
 Print Assumptions C08tree_no_bypass.
@@ -117,3 +156,10 @@ Print Assumptions C08tree_exact_on_M_simple_graph.
 Print Assumptions C08tree_pure_ic_partial.
 Print Assumptions C08tree_nonvacuous_instances.
 Print Assumptions C08tree_nonvacuous_agree.
+Print Assumptions C08tree_order_of_connected_degsum.
+Print Assumptions C08tree_connected_degsum_of_order.
+Print Assumptions C08tree_usual_iff.
+Print Assumptions C08tree_usual_treeb_order.
+Print Assumptions C08tree_usual_tree_accepted.
+Print Assumptions C08tree_usual_tree_exact_on_M.
+Print Assumptions C08tree_nonvacuous_usual.
